@@ -22,6 +22,9 @@ type qstate struct{ A, F int }
 
 // drainImage opens a disk image as a queue and reads everything the reader delivers.
 func (s *Session) drainImage(img []byte) (first int, n int, errStr string) {
+	if engine.Progress != nil {
+		engine.Progress() // hang watchdog: every image is progress
+	}
 	d := simdisk.FromImage("qimage", img)
 	d.KeepLog = false
 	defer func() {
